@@ -222,6 +222,10 @@ func NewRootConfig(
 	}); err != nil {
 		return nil, k, fmt.Errorf("unmarshalling config: %w", err)
 	}
+	// The `config` parameter must refer to the config file that was actually
+	// loaded, including one discovered by searching the working directory and
+	// its parents: ConfigDir is derived from it.
+	rootConfig.ConfigFile = addr(configFile.String())
 	if err := rootConfig.Initialize(ctx); err != nil {
 		return nil, k, fmt.Errorf("initializing root config: %w", err)
 	}
